@@ -76,10 +76,34 @@ def family():
 
 
 def by_name(name):
-    for s in family():
+    for s in family() + extra():
         if s.name == name:
             return s
     raise KeyError(name)
+
+
+_EXTRA = None
+
+
+def extra():
+    """hand-written schemas outside the "bundled schemas and their usual stricter variants" family: used by single
+    properties for aimed cases, never for the totality claims made about the family"""
+    global _EXTRA
+    if _EXTRA is None:
+        _EXTRA = [
+            # `compatible_content` is symmetric but not transitive here: C joins onto A (both may start with p) and onto B
+            # (both may start with q), while A and B share no first child — a bridge through an open C node merges an A with a B
+            SchemaInfo(Schema({"nodes": {
+                "doc": {"content": "(A | B | C)*"},
+                "A": {"content": "p q*"},
+                "B": {"content": "q+"},
+                "C": {"content": "(p | q)*"},
+                "p": {"content": "text*"},
+                "q": {"content": "text*"},
+                "text": {},
+            }, "marks": {"em": {}}}), "bridge"),
+        ]
+    return _EXTRA
 
 
 # ---------------------------------------------------------------------------------------------
